@@ -89,14 +89,17 @@ Definition verdict (H : hashes) (plaintext : bool) (o : option user) (u p : str)
       else str_eqb (if braces real then sha H (inner real) else real) (sha H p) && permitted usr
   end.
 
-Lemma fst_validate H pt st u p : fst (validate H pt st u p) = verdict H pt (lookup (lower u) st) u p.
-Proof. unfold validate, verdict. destruct (is_empty u || is_empty p); [reflexivity|].
+Lemma fst_validate_with lim H pt st u p : fst (validate_with lim H pt st u p) = verdict H pt (lookup (lower u) st) u p.
+Proof. unfold validate_with, verdict. destruct (is_empty u || is_empty p); [reflexivity|].
   destruct (lookup (lower u) st) as [usr|]; [|reflexivity].
   destruct (is_bcrypt (upass usr)); [reflexivity|].
   destruct (braces (upass usr) && negb pt); reflexivity. Qed.
 
+Lemma fst_validate H pt st u p : fst (validate H pt st u p) = verdict H pt (lookup (lower u) st) u p.
+Proof. apply fst_validate_with. Qed.
+
 (* when does the store change, and how *)
-Definition migrates (H : hashes) (pt : bool) (st : store) (u p : str) : option user :=
+Definition migrates_with (lim : N) (H : hashes) (pt : bool) (st : store) (u p : str) : option user :=
   if is_empty u || is_empty p then None else
   match lookup (lower u) st with
   | None => None
@@ -104,9 +107,22 @@ Definition migrates (H : hashes) (pt : bool) (st : store) (u p : str) : option u
       let real := upass usr in
       if is_bcrypt real then None
       else if braces real && negb pt then None
-      else if str_eqb (if braces real then sha H (inner real) else real) (sha H p) && (N.of_nat (length p) <=? 72)
+      else if str_eqb (if braces real then sha H (inner real) else real) (sha H p) && (N.of_nat (length p) <? lim)
            then Some usr else None
   end.
+Definition migrates := migrates_with 72.
+
+Lemma snd_validate_with lim H pt st u p :
+  snd (validate_with lim H pt st u p) =
+  match migrates_with lim H pt st u p with
+  | Some usr => write {| uname := uname usr; upass := bcrypt_gen H p; uperms := uperms usr |} st
+  | None => st
+  end.
+Proof. unfold validate_with, migrates_with. destruct (is_empty u || is_empty p); [reflexivity|].
+  destruct (lookup (lower u) st) as [usr|]; [|reflexivity].
+  destruct (is_bcrypt (upass usr)); [reflexivity|].
+  destruct (braces (upass usr) && negb pt); [reflexivity|]. cbn [snd].
+  destruct (str_eqb _ (sha H p) && (N.of_nat (length p) <? lim)); reflexivity. Qed.
 
 Lemma snd_validate H pt st u p :
   snd (validate H pt st u p) =
@@ -114,11 +130,7 @@ Lemma snd_validate H pt st u p :
   | Some usr => write {| uname := uname usr; upass := bcrypt_gen H p; uperms := uperms usr |} st
   | None => st
   end.
-Proof. unfold validate, migrates. destruct (is_empty u || is_empty p); [reflexivity|].
-  destruct (lookup (lower u) st) as [usr|]; [|reflexivity].
-  destruct (is_bcrypt (upass usr)); [reflexivity|].
-  destruct (braces (upass usr) && negb pt); [reflexivity|]. cbn [snd].
-  destruct (str_eqb _ (sha H p) && (N.of_nat (length p) <=? 72)); reflexivity. Qed.
+Proof. apply snd_validate_with. Qed.
 
 Section Laws.
   Variable H : hashes.
@@ -191,34 +203,34 @@ Section Laws.
   Qed.
 
   (* ---------------- migration *)
-  Lemma migrates_facts pt st u p usr : migrates H pt st u p = Some usr ->
+  Lemma migrates_facts lim pt st u p usr : migrates_with lim H pt st u p = Some usr ->
     lookup (lower u) st = Some usr /\ is_bcrypt (upass usr) = false /\
     (braces (upass usr) && negb pt = false) /\
     (if braces (upass usr) then sha H (inner (upass usr)) else upass usr) = sha H p /\
-    (length p <= 72)%nat.
-  Proof. unfold migrates. destruct (is_empty u || is_empty p); [discriminate|].
+    N.of_nat (length p) < lim.
+  Proof. unfold migrates_with. destruct (is_empty u || is_empty p); [discriminate|].
     destruct (lookup (lower u) st) as [x|]; [|discriminate].
     destruct (is_bcrypt (upass x)) eqn:E1; [discriminate|].
     destruct (braces (upass x) && negb pt) eqn:E2; [discriminate|].
-    destruct (str_eqb _ (sha H p) && (N.of_nat (length p) <=? 72)) eqn:E3; [|discriminate].
+    destruct (str_eqb _ (sha H p) && (N.of_nat (length p) <? lim)) eqn:E3; [|discriminate].
     intros Hx; injection Hx as <-. apply andb_true_iff in E3 as [E3 E4]. apply str_eqb_eq in E3.
     repeat split; try assumption. lia. Qed.
 
   Lemma firstn_72_length (q : str) : (72 <= length q)%nat -> length (firstn 72 q) = 72%nat.
   Proof. intros Hq. rewrite firstn_length. lia. Qed.
 
-  (* a migrated hash accepts exactly what the legacy credential accepted, except beyond bcrypt's 72 bytes *)
-  Lemma migrated_match (p q : str) : (length p <= 72)%nat -> ((length q <= 72)%nat \/ length p <> 72%nat) ->
+  (* the bcrypt hash of a password shorter than 72 bytes accepts exactly what the legacy credential accepted,
+     for candidates of every length *)
+  Lemma migrated_match (p q : str) : (length p < 72)%nat ->
     bcrypt_match H (bcrypt_gen H p) q = str_eqb (sha H p) (sha H q).
   Proof.
-    intros Hp Hg.
+    intros Hp.
     destruct (Nat.le_gt_cases (length q) 72) as [Hq|Hq].
     - destruct (str_eqb (sha H p) (sha H q)) eqn:E.
-      + apply sha_eqb in E. apply bcrypt_ok; assumption.
+      + apply sha_eqb in E. apply bcrypt_ok; [lia|assumption|assumption].
       + destruct (bcrypt_match H (bcrypt_gen H p) q) eqn:E2; [|reflexivity].
-        apply bcrypt_ok in E2; try assumption. apply sha_eqb in E2. congruence.
-    - destruct Hg as [Hg|Hg]; [lia|].
-      rewrite bcrypt_trunc by lia.
+        apply bcrypt_ok in E2; [|lia|assumption]. apply sha_eqb in E2. congruence.
+    - rewrite bcrypt_trunc by lia.
       assert (Hl := firstn_72_length q ltac:(lia)).
       destruct (bcrypt_match H (bcrypt_gen H p) (firstn 72 q)) eqn:E2.
       + apply bcrypt_ok in E2; try lia. subst p. lia.
@@ -226,10 +238,9 @@ Section Laws.
   Qed.
 
   Lemma migration_invariant pt st u (p : str) v (q : str) :
-    ((length q <= 72)%nat \/ length p <> 72%nat) ->
     fst (validate H pt (snd (validate H pt st u p)) v q) = fst (validate H pt st v q).
   Proof.
-    intros Hg. rewrite snd_validate. destruct (migrates H pt st u p) as [usr|] eqn:Em; [|reflexivity].
+    rewrite snd_validate. unfold migrates. destruct (migrates_with 72 H pt st u p) as [usr|] eqn:Em; [|reflexivity].
     apply migrates_facts in Em. destruct Em as (El & Enb & Ebr & Ereal & Hp).
     rewrite !fst_validate, lookup_write. cbn [uname].
     destruct (lookup_some _ _ _ El) as [_ Hn].
@@ -238,21 +249,21 @@ Section Laws.
     unfold verdict. destruct (is_empty v || is_empty q); [reflexivity|].
     cbn [upass]. rewrite gen_is_bcrypt, Enb, Ebr, Ereal.
     unfold permitted, has_perm. cbn [uperms].
-    rewrite (migrated_match p q Hp Hg). reflexivity.
+    rewrite (migrated_match p q) by lia. reflexivity.
   Qed.
 
-  (* the 72-byte edge: a legacy (here: brace-quoted) 72-byte password; after the upgrade every longer
-     password with that prefix is accepted, before it was not *)
+  (* the code before the repair upgraded 72-byte passwords too: a legacy (here: brace-quoted) 72-byte password;
+     after the upgrade every longer password with that prefix is accepted, before it was not *)
   Definition p72 : str := repeat 97 72.
   Definition dave : str := [100;97;118;101].
   Definition dave_store : store := [{| uname := dave; upass := (123 :: p72) ++ [125]; uperms := [ego_logon] |}].
 
-  Lemma migration_refuted :
-    exists st u p q, store_wf st /\ fst (validate H true st u p) = true /\
-      fst (validate H true st u q) = false /\
-      fst (validate H true (snd (validate H true st u p)) u q) = true.
+  Lemma migration_old_refuted :
+    exists st u p q, store_wf st /\ fst (validate_old H true st u p) = true /\
+      fst (validate_old H true st u q) = false /\
+      fst (validate_old H true (snd (validate_old H true st u p)) u q) = true.
   Proof.
-    exists dave_store, dave, p72, (p72 ++ [120]).
+    exists dave_store, dave, p72, (p72 ++ [120]). unfold validate_old.
     assert (Hin : inner ((123 :: p72) ++ [125]) = p72) by reflexivity.
     assert (Hbr : braces ((123 :: p72) ++ [125]) = true) by reflexivity.
     assert (Hnb : is_bcrypt ((123 :: p72) ++ [125]) = false) by reflexivity.
@@ -261,14 +272,14 @@ Section Laws.
     assert (Hne : str_eqb (sha H p72) (sha H (p72 ++ [120])) = false).
     { apply str_eqb_false. intros E. apply sha_inj in E. apply (f_equal (@length N)) in E.
       rewrite app_length in E. cbn in E. lia. }
-    assert (Hmig : migrates H true dave_store dave p72 =
+    assert (Hmig : migrates_with 73 H true dave_store dave p72 =
                    Some {| uname := dave; upass := (123 :: p72) ++ [125]; uperms := [ego_logon] |}).
-    { unfold migrates. rewrite Hlook. cbn [upass]. rewrite Hnb, Hbr, Hin, str_eqb_refl. reflexivity. }
+    { unfold migrates_with. rewrite Hlook. cbn [upass]. rewrite Hnb, Hbr, Hin, str_eqb_refl. reflexivity. }
     split; [|split; [|split]].
     - split; [intros x [<-|[]]; reflexivity|repeat constructor; intros []].
-    - rewrite fst_validate, Hlook. unfold verdict. cbn [upass]. rewrite Hnb, Hbr, Hin, str_eqb_refl, Hperm. reflexivity.
-    - rewrite fst_validate, Hlook. unfold verdict. cbn [upass]. rewrite Hnb, Hbr, Hin, Hne. reflexivity.
-    - rewrite snd_validate, Hmig, fst_validate. cbn [uname uperms].
+    - rewrite fst_validate_with, Hlook. unfold verdict. cbn [upass]. rewrite Hnb, Hbr, Hin, str_eqb_refl, Hperm. reflexivity.
+    - rewrite fst_validate_with, Hlook. unfold verdict. cbn [upass]. rewrite Hnb, Hbr, Hin, Hne. reflexivity.
+    - rewrite snd_validate_with, Hmig, fst_validate_with. cbn [uname uperms].
       change (lookup (lower dave) (write {| uname := dave; upass := bcrypt_gen H p72; uperms := [ego_logon] |} dave_store))
         with (Some {| uname := dave; upass := bcrypt_gen H p72; uperms := [ego_logon] |}).
       unfold verdict. cbn [upass]. rewrite gen_is_bcrypt.
@@ -278,6 +289,12 @@ Section Laws.
         by (symmetry; apply bcrypt_ok; [cbn; lia|cbn; lia|reflexivity]).
       reflexivity.
   Qed.
+
+  (* the repaired code leaves that credential alone *)
+  Lemma no_upgrade_at_72 pt st u (p : str) : (72 <= length p)%nat -> snd (validate H pt st u p) = st.
+  Proof. intros Hp. rewrite snd_validate. unfold migrates.
+    destruct (migrates_with 72 H pt st u p) as [usr|] eqn:Em; [|reflexivity].
+    apply migrates_facts in Em. destruct Em as (_ & _ & _ & _ & Hl). lia. Qed.
 End Laws.
 
 (* ------------------------------------------------------------------ packaging the laws *)
@@ -295,15 +312,17 @@ Lemma validate_iff' H pt st u p : hash_laws H -> store_wf st ->
 Proof. intros (A & B & C & D). apply validate_iff; assumption. Qed.
 
 Lemma migration_invariant' H pt st u (p : str) v (q : str) : hash_laws H ->
-  ((length q <= 72)%nat \/ length p <> 72%nat) ->
   fst (validate H pt (snd (validate H pt st u p)) v q) = fst (validate H pt st v q).
 Proof. intros (A & B & C & D). apply migration_invariant; assumption. Qed.
 
-Lemma migration_refuted' H : hash_laws H ->
-  exists st u p q, store_wf st /\ fst (validate H true st u p) = true /\
-    fst (validate H true st u q) = false /\
-    fst (validate H true (snd (validate H true st u p)) u q) = true.
-Proof. intros (A & B & C & D). apply migration_refuted; assumption. Qed.
+Lemma migration_old_refuted' H : hash_laws H ->
+  exists st u p q, store_wf st /\ fst (validate_old H true st u p) = true /\
+    fst (validate_old H true st u q) = false /\
+    fst (validate_old H true (snd (validate_old H true st u p)) u q) = true.
+Proof. intros (A & B & C & D). apply migration_old_refuted; assumption. Qed.
+
+Lemma no_upgrade_at_72' H pt st u (p : str) : hash_laws H -> (72 <= length p)%nat -> snd (validate H pt st u p) = st.
+Proof. intros (A & B & C & D) Hp. eapply no_upgrade_at_72; eassumption. Qed.
 
 Lemma mixed_case_refuted' H : hash_laws H ->
   exists st u p usr, In usr st /\ lower (uname usr) = lower u /\ u <> [] /\ p <> [] /\
